@@ -218,7 +218,7 @@ def observe(agent, problems: list, where: str, after_mutation: bool) -> str:
         lr_attr = getattr(agent, oc.lr)
         gs = []
         got = []
-        for g in groups:
+        for gi, g in enumerate(groups):
             ids = [id(p) for p in g["params"]]
             got.append(ids)
             toks = [index.get(i) for i in ids]
@@ -230,7 +230,8 @@ def observe(agent, problems: list, where: str, after_mutation: bool) -> str:
                 body = ",".join("x" if t is None else f"{t[0]}.{t[1]}.{t[2]}" for t in toks)
             gs.append(body + "@" + frac(g["lr"]))
             if g["lr"] != lr_attr:
-                problems.append(f"{where}: {oc.name} trains with lr {g['lr']!r} but agent.{oc.lr} is {lr_attr!r}")
+                problems.append(f"{where}: {oc.name} (param group {gi} of {len(groups)}) trains with lr {g['lr']!r} "
+                                f"but agent.{oc.lr} is {lr_attr!r}")
         # oracle: the optimizer steps exactly the current parameters of its registered networks
         want = [plist.get((name_idx[n], j), []) for n in oc.networks for j in range(len(mods_of(agent, n)))]
         if got != want:
